@@ -32,10 +32,10 @@ def gen_lines(rng, depth=0, max_items=6, in_block=False, in_cond=False):
             elif x < 0.85:
                 body.append((depth + 1, "End blocks"))
             out += body
-        elif r < 0.46 and depth < 2:
+        elif r < 0.46 and depth < 3:
             out.append((depth, f"{thr}Watch: X > {rng.randint(1, 3)}"))
             out += gen_lines(rng, depth + 1, 3, in_block, True)
-        elif r < 0.53 and depth < 2:
+        elif r < 0.53 and depth < 3:
             out.append((depth, f"Alarm: X > {rng.randint(1, 3)}"))
             out += gen_lines(rng, depth + 1, 3, in_block, True)
         elif r < 0.62:
@@ -57,9 +57,41 @@ def gen_lines(rng, depth=0, max_items=6, in_block=False, in_cond=False):
     return out
 
 
+def gen_nested(rng):
+    """directed shape: a block whose body holds Watches / Alarms nested in Watches / Alarms and whose end comes from
+    inside one of them, from the block body or from a Watch outside the block, followed by lines after the block"""
+    _blk[0] += 1
+    out = []
+    if rng.random() < 0.3:
+        out.append((0, f"Watch: X > {rng.randint(1, 3)}"))
+        out.append((1, rng.choice(["End block", "End blocks", "Mark: A"])))
+    out.append((0, f"Block: B{_blk[0]}"))
+
+    def nest(d, left):
+        kind = rng.choice(["Watch", "Watch", "Alarm"])
+        out.append((d, f"{kind}: X > {rng.randint(1, 3)}"))
+        for _ in range(rng.randint(0, 2)):
+            out.append((d + 1, rng.choice(["Mark: A", "Wait: 0.5 s", "Wait: 1 s", "CmdA: d=0", "Noop: 2"])))
+        if left > 0 and rng.random() < 0.8:
+            nest(d + 1, left - 1)
+        if rng.random() < 0.3:
+            out.append((d + 1, rng.choice(["End block", "End blocks", "Mark: B"])))
+        elif not out[-1][0] > d:
+            out.append((d + 1, "Mark: C"))
+    for _ in range(rng.randint(1, 2)):
+        nest(1, rng.randint(1, 2))
+    for _ in range(rng.randint(0, 2)):
+        out.append((1, rng.choice(["Wait: 1 s", "Wait: 0.5 s", "Mark: D", "Noop: 3"])))
+    if rng.random() < 0.8:
+        out.append((1, rng.choice(["End block", "End block", "End blocks"])))
+    for _ in range(rng.randint(1, 3)):
+        out.append((0, rng.choice(["Mark: E", "Wait: 2 s", "Wait: 1 s", "CmdB: d=0"])))
+    return out
+
+
 def gen_interp_case(rng):
     _blk[0] = 0
-    items = gen_lines(rng, 0, rng.randint(2, 8))
+    items = gen_nested(rng) if rng.random() < 0.12 else gen_lines(rng, 0, rng.randint(2, 8))
     for _ in range(rng.choice([0, 0, 1, 2])):
         items.append((0, rng.choice(["", "# c"])))
     lines = [("    " * d) + t if t else "" for d, t in items]
